@@ -661,7 +661,9 @@ def _conv_store(aligned, mem, b):
         nbytes = ctx.n * TYPES[dst][2] // 8
         ctx.mem_bytes = {mem.cname: nbytes}
         ctx.requires.append("__CPROVER_w_ok(%s, %d)" % (mem.scalar, nbytes))
-        if aligned:
+        if aligned and ctx.fn.level != "kernel":
+            # the generic converting kernel stores through a scalar copy loop and is the implementation of the unaligned form as well
+            # (store_unaligned forwards to it): alignment is a precondition of the public aligned form only
             ctx.requires.append("(LL_ADDR(%s) %% %d) == 0" % (mem.scalar, arch_align(ctx.aid)))
         ens = []
         for i in range(ctx.n):
